@@ -115,6 +115,126 @@ class FuncModel:
             return d, a.value
         return None
 
+    # ----------------------------------------------------------------- values remembered next to a chosen element
+    def joint_defs(self, x: str, b: str, at: N) -> set[tuple[int, int]]:
+        """Pairs (definition of x, definition of b) that can be current *together* at `at` (a forward data-flow over
+        pairs; a branch on `x is None` keeps only the pairs whose x-definition agrees with the branch)."""
+        cfg = self.cfg
+        key = ("joint", x, b)
+        if key not in self._btw:
+            def is_none_def(i: int) -> bool | None:
+                n = cfg.nodes[i]
+                a = n.ast
+                if n.kind == "stmt" and isinstance(a, ast.Assign) and len(a.targets) == 1 and isinstance(a.targets[0], ast.Name):
+                    return isinstance(a.value, ast.Constant) and a.value.value is None
+                return None
+            IN: dict[int, set] = {n.id: set() for n in cfg.nodes}
+            entry = cfg.entry.id
+            IN[entry] = {(-1, -1)}
+            work = [entry]
+            while work:
+                i = work.pop()
+                n = cfg.nodes[i]
+                st = IN[i]
+                ds = cfg.defs_of(n)
+                out = st
+                if x in ds:
+                    out = {(i, db) for _, db in out}
+                if b in ds:
+                    out = {(dx, i) for dx, _ in out}
+                if n.kind == "branch" and n.test is not None:
+                    t, pol = n.test, n.pol
+                    while isinstance(t, ast.UnaryOp) and isinstance(t.op, ast.Not):
+                        t, pol = t.operand, not pol
+                    if isinstance(t, ast.Compare) and len(t.ops) == 1 and isinstance(t.left, ast.Name) and t.left.id == x \
+                            and isinstance(t.comparators[0], ast.Constant) and t.comparators[0].value is None \
+                            and isinstance(t.ops[0], (ast.Is, ast.IsNot)):
+                        want_none = pol if isinstance(t.ops[0], ast.Is) else not pol
+                        out = {(dx, db) for dx, db in out if dx >= 0 and (is_none_def(dx) is None or is_none_def(dx) == want_none)}
+                for j in cfg.g.successors(i):
+                    if not out <= IN[j]:
+                        IN[j] |= out
+                        work.append(j)
+            self._btw[key] = IN
+        return set(self._btw[key][at.id])
+
+    def paired_value(self, name: str, at: N) -> ast.expr | None:
+        """`name` caches a value derived from a *chosen element*:  `B = v; name = E(v)` are assigned side by side (and a
+        `name is None` fallback computes E(B) directly). If every definition of `name` that can be current at `at`
+        agrees on one expression E(B) for the B that is current with it, return E(B); else None."""
+        cfg = self.cfg
+        xdefs = [d for d in cfg.reaching_defs(name, at)]
+        if len(xdefs) < 2:
+            return None
+        siblings: set[str] = set()
+        for d in xdefs:
+            if d.kind != "stmt" or not isinstance(d.ast, ast.Assign):
+                return None
+            par = self.f.parents.get(d.ast)
+            for fld in ("body", "orelse"):
+                blk = getattr(par, fld, None)
+                if isinstance(blk, list) and d.ast in blk:
+                    for s_ in blk:
+                        if isinstance(s_, ast.Assign) and len(s_.targets) == 1 and isinstance(s_.targets[0], ast.Name) \
+                                and isinstance(s_.value, ast.Name) and s_.targets[0].id != name:
+                            siblings.add(s_.targets[0].id)
+        for B in sorted(siblings):
+            pairs = self.joint_defs(name, B, at)
+            if not pairs:
+                continue
+            exprs = set()
+            result = None
+            ok = True
+            for dx, db in pairs:
+                if dx < 0:
+                    ok = False
+                    break
+                xn = cfg.nodes[dx]
+                if not (xn.kind == "stmt" and isinstance(xn.ast, ast.Assign)):
+                    ok = False
+                    break
+                val = xn.ast.value
+                if isinstance(val, ast.Constant) and val.value is None:
+                    ok = False          # the "not computed yet" marker is still current here
+                    break
+                # expand locals of the same iteration (t = bdd.r_restrict({var: True}))
+                def expand(e):
+                    if isinstance(e, ast.Tuple):
+                        return ast.Tuple([expand(z) for z in e.elts], ast.Load())
+                    return self.deref(e, xn)
+                val = expand(val)
+                names = {z.id for z in ast.walk(val) if isinstance(z, ast.Name)}
+                if B in names:
+                    # computed from B directly: B's current definition must be the one current at the computation
+                    if db < 0 or cfg.nodes[db] not in cfg.reaching_defs(B, xn):
+                        ok = False
+                        break
+                    e2 = val
+                else:
+                    bn = cfg.nodes[db] if db >= 0 else None
+                    if bn is None or not (bn.kind == "stmt" and isinstance(bn.ast, ast.Assign) and isinstance(bn.ast.value, ast.Name)):
+                        ok = False
+                        break
+                    v = bn.ast.value.id
+                    # side by side: same block, and v not re-bound between the two assignments
+                    if self.f.parents.get(bn.ast) is not self.f.parents.get(xn.ast) or v not in names:
+                        ok = False
+                        break
+                    if {d_.id for d_ in cfg.reaching_defs(v, bn)} != {d_.id for d_ in cfg.reaching_defs(v, xn)}:
+                        ok = False
+                        break
+
+                    class _R(ast.NodeTransformer):
+                        def visit_Name(me, n):  # noqa: N805
+                            return ast.copy_location(ast.Name(B, n.ctx), n) if n.id == v else n
+                    import copy as _copy
+                    e2 = _R().visit(_copy.deepcopy(val))
+                exprs.add(ast.unparse(e2))
+                result = e2
+            if ok and len(exprs) == 1:
+                return result
+        return None
+
     def value_defs(self, name: str, at: N | None, depth: int = 0) -> list[tuple[N, ast.expr | None]]:
         """Definitions of `name` reaching `at`, looking through plain copies `a = b` (as left behind by the
         inline pre-pass or by a cautious refactoring): (defining node, value expression or None)."""
